@@ -36,11 +36,20 @@ class Gen:
         self.assoc = {}       # node -> peer
         self.sess = []        # dicts: ord, alive, node, peer, cp, ids{kind:set}
         self.nsrr = 0         # report requests expected so far (rough)
+        # rule ids: mostly 1..3; one script in four uses ids that collide when truncated to 8 / 16 bits or sit at the top
+        # of the id space (PDR ids are 16 bit, BAR ids 8 bit, the others 32 bit; TLC integers end at 2^31 - 1)
+        if rng.random() < 0.25:
+            self.pal = {"far": [1, 65537, 2147483647], "qer": [1, 65537, 2147483647], "urr": [1, 65537, 2147483647],
+                        "pdr": [1, 257, 65535], "bar": [1, 2, 255]}
+        else:
+            self.pal = {k: [1, 2, 3] for k in KINDS}
+        # request sequence numbers of a peer: mostly from 1; sometimes just below the end of the 24-bit space (wrap to 0)
+        self.seq0 = 0xfffffc if rng.random() < 0.2 else 0
         self.sent = []        # request events sent (for duplicates)
         self.events = []
 
     def nseq(self, peer):
-        self.seq[peer] = self.seq.get(peer, 0) + 1
+        self.seq[peer] = (self.seq.get(peer, self.seq0) + 1) & 0xffffff
         return self.seq[peer]
 
     def peer_of(self, node):
@@ -60,7 +69,7 @@ class Gen:
     def rnd_op(self, s, creates_only=False, maxid=3, no_loose=False):
         r = self.r
         kind = r.choice(KINDS + ["urr", "pdr"])
-        i = r.randint(1, maxid)
+        i = self.pal[kind][r.randint(1, maxid) - 1]
         o = "create" if creates_only else r.choice(["create", "create", "update", "remove", "remove", "query"])
         if o == "query":
             kind = "urr"
@@ -70,10 +79,10 @@ class Gen:
         if kind == "urr" and o in ("create", "update"):
             kw = self.rnd_urr_fields()
         if kind == "pdr" and o in ("create", "update"):
-            urrs = [u for u in range(1, maxid + 1) if r.random() < 0.4]
+            urrs = [u for u in self.pal["urr"][:maxid] if r.random() < 0.4]
             if no_loose and o == "update" and not urrs:
-                urrs = [r.randint(1, maxid)]
-            kw = {"urrs": urrs, "hasurrs": bool(urrs), "ueip": r.random() < 0.5, "far": r.choice([0, 1, 2])}
+                urrs = [r.choice(self.pal["urr"][:maxid])]
+            kw = {"urrs": urrs, "hasurrs": bool(urrs), "ueip": r.random() < 0.5, "far": r.choice([0] + self.pal["far"][:2])}
         if o == "create":
             s["ids"][kind].add(i)
         if o == "remove":
@@ -161,7 +170,8 @@ class Gen:
             return self.mod_ev()
         u = r.choice(sorted(s["ids"]["urr"]) or [1])
         p = r.choice(sorted(s["ids"]["pdr"]) or [1])
-        second = r.choice([op("remove", "pdr", p), op("update", "pdr", p, urrs=[u % 3 + 1], hasurrs=True), op("query", "urr", u)])
+        other = self.pal["urr"][(self.pal["urr"].index(u) + 1) % 3] if u in self.pal["urr"] else self.pal["urr"][0]
+        second = r.choice([op("remove", "pdr", p), op("update", "pdr", p, urrs=[other], hasurrs=True), op("query", "urr", u)])
         ops = [op("remove", "urr", u), second]
         r.shuffle(ops)
         s["ids"]["urr"].discard(u)
@@ -196,7 +206,7 @@ class Gen:
         s = self.pick_sess(0.85)
         if s is None:
             return self.hb_ev()
-        reps = [{"k": "usar", "urr": r.randint(1, 3), "trig": r.choice(trigs), "pdr": 0, "action": 0, "pkt": "", "tok": 0,
+        reps = [{"k": "usar", "urr": r.choice(self.pal["urr"]), "trig": r.choice(trigs), "pdr": 0, "action": 0, "pkt": "", "tok": 0,
                  "vals": {k: "" for k in ("tv", "uv", "dv", "tp", "up", "dp", "st", "et", "du")}}
                 for _ in range(r.randint(1, 3))]
         if s["alive"]:
@@ -209,7 +219,7 @@ class Gen:
         if s is None:
             return self.hb_ev()
         act = r.choice([4, 12, 12, 8, 2])
-        reps = [{"k": "dldr", "urr": 0, "trig": 0, "pdr": r.randint(1, 3), "action": act, "pkt": "4500%04x" % r.randrange(65536),
+        reps = [{"k": "dldr", "urr": 0, "trig": 0, "pdr": r.choice(self.pal["pdr"]), "action": act, "pkt": "4500%04x" % r.randrange(65536),
                  "tok": 0, "vals": {k: "" for k in ("tv", "uv", "dv", "tp", "up", "dp", "st", "et", "du")}}]
         if s["alive"] and act & 8:
             self.nsrr += 1
